@@ -274,10 +274,14 @@ func rowsrestTieRow(r *Rng) []bool {
 	return c06Runs(ws, false)
 }
 
-func rowsrestGenRow(r *Rng) ([]bool, string) {
+// pref: index into c06UPCFormats of the format the reader under test owns (-1: none)
+func rowsrestGenRow(r *Rng, pref int) ([]bool, string) {
 	switch r.Intn(10) {
-	case 0, 1, 2, 3: // symbol + add-on, framed
+	case 0, 1, 2, 3, 4: // symbol + add-on, framed
 		f := c06UPCFormats[r.Intn(4)]
+		if pref >= 0 && r.Chance(0.75) {
+			f = c06UPCFormats[pref]
+		}
 		base, _ := rowsrestSymbol(r, f)
 		if base == nil {
 			return []bool{true, false, true}, "tiny"
@@ -309,15 +313,15 @@ func rowsrestGenRow(r *Rng) ([]bool, string) {
 		l := r.Pick([]int{0, 2, 3, 5, 9, 10, 20, 40}) * r.Pick([]int{1, k})
 		t := r.Pick([]int{0, 1, 3, 5, 6, 7, 10, 20, 40}) * r.Pick([]int{1, k})
 		row = append(append(c06White(l), c06Scale(row, k)...), c06White(t)...)
-		for m := r.Pick([]int{0, 0, 0, 1, 1, 2}); m > 0; m-- {
+		for m := r.Pick([]int{0, 0, 0, 0, 0, 1, 1, 2}); m > 0; m-- {
 			var how string
 			row, how = c06MutateRow(r, row)
 			class += "-" + how
 		}
 		return row, class
-	case 4:
+	case 5:
 		return rowsrestTieRow(r), "variance-tie"
-	case 5: // UPC-like runs: widths 1..4 modules at scale k, white margin
+	case 6: // UPC-like runs: widths 1..4 modules at scale k, white margin
 		k := r.Pick([]int{1, 1, 2, 3})
 		ws := []int{r.Range(0, 12) * k}
 		for i := r.Range(3, 90); i > 0; i-- {
@@ -327,6 +331,43 @@ func rowsrestGenRow(r *Rng) ([]bool, string) {
 		return c06Runs(ws, false), "upc-like-runs"
 	}
 	return c06GenRow(r, &c06RowDecs[5+r.Intn(5)])
+}
+
+// a clean, readable row for the reader: matching format, quiet zones as the reader insists on them, optional VALID add-on;
+// returns the row and the length of the add-on (0 = none)
+func rowsrestCleanRow(r *Rng, pref int) ([]bool, int) {
+	f := c06UPCFormats[r.Intn(4)]
+	if pref >= 0 {
+		f = c06UPCFormats[pref]
+	}
+	base, _ := rowsrestSymbol(r, f)
+	if base == nil {
+		return nil, 0
+	}
+	row := append([]bool{}, base...)
+	n := r.Pick([]int{0, 2, 5, 2, 5})
+	if n > 0 {
+		d := c06Digits(r, n)
+		if n == 5 && r.Chance(0.5) {
+			d = rowsrestPrices[r.Intn(len(rowsrestPrices))]
+		}
+		par := rowsrestExt2Parity(d)
+		if n == 5 {
+			par = rowsrestExt5Parity(d)
+		}
+		row = append(append(row, c06White(r.Pick([]int{7, 9, 12}))...), rowsrestAddOn(d, par)...)
+	}
+	k := r.Pick([]int{1, 1, 2, 3, 4})
+	row = append(append(c06White((3+r.Intn(8))*k), c06Scale(row, k)...), c06White((7+r.Intn(8))*k)...)
+	return row, n
+}
+
+// reader index (0 ean13, 1 ean8, 2 upca, 3 upce, 4 multi) -> index of its format in c06UPCFormats (EAN_13, EAN_8, UPC_A, UPC_E)
+func rowsrestPref(which int) int {
+	if which >= 0 && which < 4 {
+		return which
+	}
+	return -1
 }
 
 // ---------- one call ----------
@@ -469,12 +510,21 @@ func rowsrestUPC(c *Ctx) {
 	rowsrestStrings(c)
 	n := c.Pick(9000, 400000)
 	c.Parallel(n, 16, func(i int, r *Rng) {
-		bs, class := rowsrestGenRow(r)
+		bs, class := rowsrestGenRow(r, rowsrestPref(i%5))
+		rd := rowsrestNewReader(r, i%5)
+		h := rowsrestGenHints(r)
+		if r.Chance(0.35) { // a readable row and a hint map that lets it through
+			if cb, n := rowsrestCleanRow(r, rowsrestPref(i%5)); cb != nil {
+				bs, class = cb, fmt.Sprintf("clean+addon%d", n)
+				if h.ext != "-" && r.Chance(0.8) {
+					h.extV = [][]int{{n}, {n, 7}, {0, 2, 5}}[r.Intn(3)]
+					h.ext = ints(h.extV)
+				}
+			}
+		}
 		if len(bs) == 0 {
 			bs = []bool{false}
 		}
-		rd := rowsrestNewReader(r, i%5)
-		h := rowsrestGenHints(r)
 		rn := r.Pick([]int{0, 1, 7, 49, 1000, -1})
 		out := rowsrestCall(c, rd, h, rn, bs, class)
 		kind := "err"
